@@ -84,6 +84,9 @@ func cmdUnit(args []string) {
 			r := runUnit(w, pk, c)
 			solveUnit(r, solveOpts{timeout: time.Duration(*to) * time.Second, all: *all, workdir: *keep, par: runtime.NumCPU()})
 			fmt.Println(r.summary())
+			if r.Err != "" {
+				fmt.Println("  UNIT ERROR:", r.Err)
+			}
 			for _, o := range r.Obligs {
 				mark := "ok  "
 				if o.Canary {
